@@ -1004,7 +1004,8 @@ func (txn *KVTxn) Rollback() error {
 		)
 		if needCleanUpLocks {
 			rollbackBo := retry.NewBackofferWithVars(txn.store.Ctx(), CommitSecondaryMaxBackoff, txn.vars)
-			txn.committer.resolveFlushedLocks(rollbackBo, pipelinedStart, pipelinedEnd, false)
+			// pipelinedEnd is the largest flushed key itself: the resolved range must include it.
+			txn.committer.resolveFlushedLocks(rollbackBo, pipelinedStart, tikv.NextKey(pipelinedEnd), false)
 		}
 	}
 	txn.close()
